@@ -19,7 +19,7 @@ PRED_SIG = {
     "P01": ("GHHV", 0),
     "P07": ("TTT", 0),
     "P06": ("GHTT", 0), "P06S": ("T", 0), "P04": ("GHT", 0), "P05": ("GHTV", 0), "J05": ("GHTV", 0), "P09": ("GHTV", 0), "P02": ("T", 0), "P03": ("GT", 0),
-    "W08": ("", 0), "P15": ("", 0), "P17": ("", 0), "P16": ("", 0), "P13": ("", 0), "P11": ("GHTV", 0), "P12": ("GHTV", 0), "P13V": ("", 0), "P17D": ("", 0), "P18": ("GGTTUE", 0), "P18D": ("GGTTUE", 0), "P18F": ("G", 0),
+    "W08": ("", 0), "P15": ("", 0), "P17": ("", 0), "P16": ("", 0), "P13": ("", 0), "P11": ("GHTV", 0), "P12": ("GHTV", 0), "P10": ("GHT", 0), "P13V": ("", 0), "P17D": ("", 0), "P18": ("GGTTUE", 0), "P18D": ("GGTTUE", 0), "P18F": ("G", 0),
 }
 for k, v in PRED_SIG.items(): corr.OPSIG[k] = v
 
@@ -745,6 +745,50 @@ PROPS["C12"] = dict(
     assumptions=["model at the dual-number instance DS (QS orc) = the scalar-generic Gallina model with every scalar operation lifted (coq/Dual.v); tied to /repo by exact comparison, primal AND dual parts, with manif's own templates instantiated over a dual-number scalar on the exact rationals (harness/dual.h: the ceres::Jet pattern, specialising only Constants and is_ad as ceres/constants.h does; ceres and autodiff themselves are not installed)",
                  "the ceres functors are header-only templates over raw pointers: they are instantiated directly (LieGroup over double / rationals, T = the dual scalar)",
                  "single precision: the float instantiation's Jacobians against the double ones on generic inputs (tolerance 2e-3 relative)"],
+)
+
+
+def c10_sanitized(pid, P, tier, seed, log):
+    """support run (not proof): the view operations and predicate P10 in double under AddressSanitizer + UBSan; a report aborts the
+    harness, which shows as a missing result"""
+    g = mkgen(pid, seed, 10); n = 3 if tier != "thorough" else 30
+    cases = [gen2.gen_view(g, gn) for gn in P["groups"] for _ in range(3 * n)] + [corr.gen_case(g, gn, "P10", force_valid=True) for gn in P["groups"] for _ in range(n)]
+    by = {}
+    for c in cases: by.setdefault(corr.gset_of(c["group"]), []).append(c)
+    specs = [dict(name="hsan%s" % s, source="main.cpp", defines=["-DVQ_GROUPSET=%s" % s, "-DVQ_SCALAR=1"],
+                  flags=("-std=c++11", "-O1", "-g", "-fsanitize=address,undefined", "-fno-sanitize-recover=all", "-fno-omit-frame-pointer"), libs=("-lgmpxx", "-lgmp", "-lmpfr")) for s in by]
+    bins = vlib.build_many(specs); raw = []; nrun = 0
+    import subprocess
+    for s, cs in by.items():
+        path, lg = bins["hsan%s" % s]
+        if path is None:
+            raw.append(("build", dict(binary="hsan%s" % s), "sanitizer harness does not build: %s" % lg[-400:], dict(binary="hsan%s" % s, log=lg[-3000:]), False)); continue
+        inp = "\n".join(corr.case_line(i, c) for i, c in enumerate(cs)) + "\n"
+        p = subprocess.run([path], input=inp, stdout=subprocess.PIPE, stderr=subprocess.PIPE, text=True, timeout=1200)
+        done = sum(1 for l in p.stdout.splitlines() if l.startswith("R ")); nrun += done
+        if p.returncode != 0 or done != len(cs):
+            c = cs[min(done, len(cs) - 1)]
+            raw.append(("pred", dict(group=c["group"], pred="sanitizer", scalar="d", pair="no AddressSanitizer / UBSan report", _args=c["args"]),
+                        "%s: the sanitizer build stopped after %d of %d cases: %s" % (c["group"], done, len(cs), p.stderr[-400:].replace("\n", " ")),
+                        dict(kind="sanitizer", case=corr.case_json(c), stderr=p.stderr[-3000:]), True))
+    log("sanitizer build (ASan+UBSan, double): %d cases run, %d reports" % (nrun, len(raw)))
+    return raw, dict(sanitizer_cases=nrun)
+
+P10_PAIRS = ["Map inverse", "Map<const> inverse", "Map log", "Map<const> log", "Map compose", "Map<const> compose", "Y.compose(Map<const>)", "Map<const> rplus", "Map<const> rminus", "Map<const> adj",
+             "Map<const> transform", "Map<const> * Y", "Map<const> compose J_a", "Map<const> compose J_b", "reads leave the buffer untouched", "Map = owning", "Map.setIdentity()", "Map += t", "Map *= Y",
+             "Map = Map.inverse()", "Map = Map (copy)", "Map = std::move(Map)", "Map = Map<const>", "Map = std::move(owning)", "Map.coeffs()(k) = v", "owning = Map<const>", "owning(Map<const>)",
+             "Map.normalize()", "Map.setRandom() writes only the view", "Map<const T> exp", "Map<const T> hat", "Map<const T> rjac", "X.rplus(Map<const T>)", "tangent reads leave the buffer untouched",
+             "Map<T> += t", "Map<T>.setZero()", "Map<T> = t"]
+PROPS["C10"] = dict(
+    vfiles=["Properties_C10.v"], level="proof",
+    groups=BASE_GROUPS,
+    corr_ops=["View"],
+    preds=[dict(op="P10", pairs=P10_PAIRS, dtol=0.0, dscale=lambda c: 1.0)],
+    extra=[c10_sanitized],
+    n=dict(quick=(40, 12), thorough=(400, 120)),
+    assumptions=["model = a buffer as a list of scalars, a view as an offset (coq/Views.v): 29 operation ids through Eigen::Map<G>, Eigen::Map<const G>, Eigen::Map<Tangent>; tied to /repo by executing the same ids on user buffers with guard zones of distinct sentinel values (unaligned offsets) and comparing the results AND the whole buffer afterwards exactly over the rational scalar",
+                 "predicate P10: owning object / Map / Map<const> results bit for bit (exact and double), whole buffers including guards after every kind of write, setRandom's frame",
+                 "what the model cannot exhibit: C++ object lifetime, alignment, and reads outside the view that do not influence a value; those are covered only by the AddressSanitizer + UBSan build of the same driver (support, not proof)"],
 )
 
 # ------------------------------------------------------------------ generic engine
